@@ -32,8 +32,8 @@ META = {
 }
 
 # ----------------------------------------------------------------------------- abstract syntax
-# layout: ["b", w] | ["g", w] | ["s", [[name, lay]..]] | ["u", [[name, lay]..]] | ["a", lay, n]
-# object: ["V", lay, store] | ["P", lay, idx, [stores]] | ["P", lay, [idx..], [stores row-major], [dims..]] (nested) | ["i", v] | ["D", [[key, obj]..]] | ["L", [obj..]]
+# layout: ["b", w] | ["g", w] | ["e", w, id] (amaranth.lib.enum.Enum class id, shape=w) | ["n", w] (IntEnum, shape=w) | ["s", [[name, lay]..]] | ["u", [[name, lay]..]] | ["a", lay, n]
+# object: ["V", lay, store] | ["P", lay, idx, [stores]] | ["P", lay, [idx..], [stores row-major], [dims..]] (nested) | ["i", v] | ["C", lay, bits] (data.Const) | ["E", v, w, id] (member of Enum id) | ["D", [[key, obj]..]] | ["L", [obj..]]
 # selection: ["m", "C"|"L"|"R"|"A"] | ["I", [key..]] | ["M", [[key, sel]..]]
 # key: str (member name) or int (index)
 
@@ -44,8 +44,14 @@ def _key_tok(k) -> str:
 
 def rpn(x) -> str:
     t = x[0]
-    if t in "bg":
+    if t in "bgn":
         return f"{t}{x[1]}"
+    if t == "e":
+        return f"e{x[1]}.{x[2]}"
+    if t == "C":
+        return f"{rpn(x[1])},C{x[2]}"
+    if t == "E":
+        return f"E{x[1]}.{x[2]}.{x[3]}"
     if t in "su":
         return ",".join([p for k, l in x[1] for p in (_key_tok(k), rpn(l))] + [f"{t}{len(x[1])}"])
     if t == "a":
@@ -86,8 +92,14 @@ def parse(s: str):
             st.append(("key", rest))
         elif c == "N":
             st.append(("key", int(rest)))
-        elif c in "bg":
+        elif c in "bgn":
             st.append([c, int(rest)])
+        elif c == "e":
+            st.append(["e"] + [int(x) for x in rest.split(".")])
+        elif c == "C":
+            st.append(["C", st.pop(), int(rest)])
+        elif c == "E":
+            st.append(["E"] + [int(x) for x in rest.split(".")])
         elif c == "i":
             st.append(["i", int(rest)])
         elif c == "m":
@@ -117,6 +129,23 @@ def parse(s: str):
 
 
 # ----------------------------------------------------------------------------- real objects
+_enum_classes: dict = {}
+
+
+def enum_class(w: int, ident, int_enum: bool = False):
+    """an amaranth.lib.enum.Enum (or IntEnum) class with shape=w in which every w-bit value is a member"""
+    from amaranth.lib import enum
+
+    key = (w, ident, int_enum)
+    if key not in _enum_classes:
+        name = f"N{w}" if int_enum else f"E{w}_{ident}"
+        ns: dict = {}
+        exec(f"class {name}(base, shape={w}):\n" + "".join(f"    M{v} = {v}\n" for v in range(2**w)),
+             {"base": enum.IntEnum if int_enum else enum.Enum}, ns)
+        _enum_classes[key] = ns[name]
+    return _enum_classes[key]
+
+
 def real_layout(lay):
     from amaranth import signed, unsigned
     from amaranth.lib import data
@@ -126,6 +155,10 @@ def real_layout(lay):
         return unsigned(lay[1])
     if t == "g":
         return signed(lay[1])
+    if t == "e":
+        return enum_class(lay[1], lay[2])
+    if t == "n":
+        return enum_class(lay[1], 0, True)
     if t == "s":
         return data.StructLayout({k: real_layout(l) for k, l in lay[1]})
     if t == "u":
@@ -135,7 +168,7 @@ def real_layout(lay):
 
 def lay_size(lay) -> int:
     t = lay[0]
-    if t in "bg":
+    if t in "bgen":
         return lay[1]
     if t == "s":
         return sum(lay_size(l) for _, l in lay[1])
@@ -161,11 +194,15 @@ class Side:
         if store in self.sigs:
             raise ValueError("store used twice")
         self.widths[store] = size
-        if lay[0] in "bg":
+        if lay[0] in "bgn":
             init = (-1 if lay[0] == "g" and size else (1 << size) - 1) if self.ones else 0
             sig = Signal(real_layout(lay), init=init)
             self.sigs[store] = sig
             return sig
+        if lay[0] == "e":  # Signal(EnumClass): an EnumView over a plain signal
+            sig = Signal(size, init=((1 << size) - 1) if self.ones else 0)
+            self.sigs[store] = sig
+            return real_layout(lay)(sig)
         sig = Signal(size, init=((1 << size) - 1) if self.ones else 0)
         self.sigs[store] = sig
         return data.View(real_layout(lay), sig)
@@ -189,6 +226,12 @@ class Side:
             return res
         if t == "i":
             return obj[1]
+        if t == "C":
+            from amaranth.lib import data
+
+            return data.Const(real_layout(obj[1]), obj[2])
+        if t == "E":
+            return enum_class(obj[2], obj[3])(obj[1])
         if t == "D":
             return {k: self.build(o) for k, o in obj[1]}
         return [self.build(o) for o in obj[1]]
